@@ -34,6 +34,10 @@ def main(job_path: str) -> int:
     settings = d / 'settings.txt'
     settings.write_text(job['settings'])
     out = d / 'MC_Result.txt'
+    if job.get('stale_lock'):
+        # pylocker's own format: pass, timestamp, pid — of a process that no longer exists, long ago
+        import time
+        (d / '.lock').write_text(f'someone-elses-pass\n{time.time() - 100000:.6f}\n999999')
     import hashlib
     st = np.random.get_state()
     parent_rng = [hashlib.sha1(st[1].tobytes()).hexdigest(), int(st[2]), int(st[3]), float(st[4])]
